@@ -144,9 +144,7 @@ class SymU:
         if method != "__call__":
             raise UnsupportedUniformUse("%s.%s on a symbolic uniform" % (ufunc.__name__, method))
         if ufunc is np.log and len(inputs) == 1:
-            if self._kind != "u" or self._lo != 0.0 or self._hi != 1.0:
-                raise UnsupportedUniformUse("log of %s" % self._kind)
-            return SymU(self._stream, "log")
+            return self.log()
         names = {"less": (True, False), "less_equal": (True, False), "greater": (False, False),
                  "greater_equal": (False, False)}
         if ufunc.__name__ in names and len(inputs) == 2:
@@ -166,6 +164,10 @@ class SymU:
 
     def log(self):
         """numpy's object-dtype loop for np.log calls this method on the element."""
+        if self._kind == "u" and self._lo == 0.0 and self._stream.log_uniform == "exponential":
+            e = self._stream.exponential()
+            with np.errstate(divide="ignore"):
+                return float(np.log(self._hi)) - float(e)
         if self._kind != "u" or self._lo != 0.0 or self._hi != 1.0:
             raise UnsupportedUniformUse("log of %s" % self._kind)
         return SymU(self._stream, "log")
@@ -216,7 +218,11 @@ class Stream:
     """
 
     def __init__(self, normal=None, gamma=None, exponential=None, laplace=None, uniform="symbolic",
-                 decisions=None, normal_default=None):
+                 decisions=None, normal_default=None, log_uniform="symbolic"):
+        # log_uniform="exponential": log(U(0,hi)) is answered by log(hi) - e with e the next scripted exponential
+        # (-log U(0,1) ~ Exp(1) exactly): lets a slice variable drawn in linear space follow the same script as one
+        # drawn in log space.  Default: log of a standard uniform stays symbolic, of a scaled one is unsupported.
+        self.log_uniform = log_uniform
         # scripts are stored under sc_* names: the numpy-API methods below are called normal/gamma/...
         self.sc_normal = normal
         self.sc_gamma = gamma
